@@ -90,6 +90,19 @@ def corpus(seed):
     for i in range(8):
         v = vers[(i + 1) % len(vers)]
         out.append((f'plan-model-ts:{i}', 'plan', f'SELECT m.ts, m.yhat FROM int1.series AS t JOIN mindsdb.ts1{v} AS m WHERE t.ts > {i} AND t.g = {i % 3}'))
+    # joins of tables, models and further tables (some joined on a model column): the join planner's bookkeeping
+    for i in range(70):
+        text, info = fedgen.model_join(r)
+        out.append((f'plan-model-join:{i}', 'plan', text))
+    # nested selects that live on another integration than the outer query (planned as separate steps); several
+    # statements share the text of the nested select
+    for i in range(12):
+        sub = ['SELECT s.id FROM int2.t2 AS s WHERE s.a > 1', 'SELECT max(s.a) FROM int2.t2 AS s', 'SELECT u.x FROM int3.t3 AS u'][i % 3]
+        outer = [f'SELECT p.id FROM int1.t1 AS p WHERE p.a IN ({sub}) AND p.id > {i}',
+                 f'SELECT p.c, p.id FROM int1.t1 AS p WHERE p.id = {i} OR p.a IN ({sub})',
+                 f'SELECT q.y FROM int1.t3 AS q WHERE q.x IN ({sub}) AND q.x NOT IN ({sub})',
+                 f'DELETE FROM int1.t1 WHERE a IN ({sub})'][i % 4]
+        out.append((f'plan-sub:{i}', 'plan', outer))
     # render
     from vf.gen import selgen
     for i in range(30):
@@ -112,7 +125,10 @@ def call(api, payload, shared=None):
         if api == 'plan':
             from mindsdb_sql.planner import plan_query
             kw = shared['catalog'] if shared and 'catalog' in shared else fresh_catalog()
-            plan = plan_query(parse_sql(payload, 'mindsdb'), **kw)
+            if shared and 'planner' in shared:
+                plan = shared['planner'].from_query(parse_sql(payload, 'mindsdb'))      # one planner object, many statements
+            else:
+                plan = plan_query(parse_sql(payload, 'mindsdb'), **kw)
             return ['ok', monitors.struct_key(plan.steps), len(plan.steps)]
         if api == 'render':
             from mindsdb_sql.render.sqlalchemy_render import SqlalchemyRender
@@ -124,11 +140,38 @@ def call(api, payload, shared=None):
     raise ValueError(api)
 
 
+def isolated_call(api, payload):
+    """The call made in a forked child of a process that has only imported the library: no earlier call of any kind
+    can have influenced it (the reference for 'depends only on the input')."""
+    rfd, wfd = os.pipe()
+    pid = os.fork()
+    if pid == 0:
+        code = 0
+        try:
+            os.close(rfd)
+            data = json.dumps(call(api, payload)).encode()
+            with os.fdopen(wfd, 'wb') as f:
+                f.write(data)
+        except BaseException:
+            code = 3
+        finally:
+            os._exit(code)
+    os.close(wfd)
+    with os.fdopen(rfd, 'rb') as f:
+        data = f.read()
+    _, status = os.waitpid(pid, 0)
+    if status != 0 or not data:
+        raise RuntimeError(f'isolated call failed: status {status}')
+    return json.loads(data)
+
+
 def golden_main(seed, out):
     core.use_repo()
+    import mindsdb_sql.planner, mindsdb_sql.render.sqlalchemy_render      # noqa: imports only, no call
+    monitors.parser_classes(), monitors.lexer_classes()                   # imports the dialect modules (LALR tables are built at import)
     res = {}
     for cid, api, payload in corpus(seed):
-        res[cid] = call(api, payload)
+        res[cid] = isolated_call(api, payload)
     res['__class_state__'] = class_state()
     with open(out, 'w') as f:
         json.dump(res, f)
@@ -306,10 +349,16 @@ def axis_history(ctx, items, gold, rounds):
         order = list(items)
         r.shuffle(order)
         order = order[:90]
+        order += r.sample(order, 25)        # some inputs come round again later in the same history
         # one SHARED catalog and renderers for the whole history: re-use must not alter later calls
         shared = {'catalog': fresh_catalog(), 'renders': {d: SqlalchemyRender(d) for d in ('mysql', 'postgresql', 'sqlite', 'mssql')}} if rnd % 2 else None
+        if shared is not None and rnd % 4 == 3:
+            from mindsdb_sql.planner.query_planner import QueryPlanner
+            shared['planner'] = QueryPlanner(**shared['catalog'])
+        seen = {}
         for cid, api, payload in order:
             res = call(api, payload, shared)
+            seen[cid] = seen.get(cid, 0) + 1
             acc.ev()
             acc.count('history_calls_judged')
             acc.add('apis', api)
@@ -317,9 +366,9 @@ def axis_history(ctx, items, gold, rounds):
                 acc.count('catalog_reuse_calls')
             acc.key(cid, 'history')
             if res != gold[cid]:
-                acc.fail({'axis': 'history' if shared is None else 'history+shared-catalog', 'api': api, 'input_class': cid.split(':')[0],
+                acc.fail({'axis': 'history' if shared is None else 'history+shared-planner' if 'planner' in shared else 'history+shared-catalog', 'api': api, 'input_class': cid.split(':')[0],
                           'differs': diff_kind(gold[cid], res)},
-                         {'input': cid, 'golden': gold[cid], 'observed': res, 'round': rnd, 'previous_calls': [o[0] for o in order[:order.index((cid, api, payload))]][-8:]})
+                         {'input': cid, 'golden': gold[cid], 'observed': res, 'round': rnd, 'previous_calls': [o[0] for o in order[:order.index((cid, api, payload))]][-8:], 'calls_of_this_input_so_far': seen.get(cid, 0)})
         if class_state() != gold['__class_state__']:
             acc.fail({'axis': 'history', 'api': 'class-state', 'input_class': '-', 'differs': 'shared-class-state-changed'}, {'round': rnd})
 
@@ -352,7 +401,7 @@ def run_shard(ctx):
     if ctx.shard < 4:
         seeds = [[1], [2], [3], ['random']][ctx.shard] if quick else [[1, 5], [2, 6], [3, 7], ['random', 11]][ctx.shard]
         axis_hashseed(ctx, gold, seeds)
-    axis_history(ctx, items, gold, rounds=2 if quick else 10)
+    axis_history(ctx, items, gold, rounds=4 if quick else 12)
     axis_threads(ctx, items, gold, rounds=4 if quick else 30)
     if ctx.shard == 0:
         acc.sample({'golden_examples': {k: gold[k] for k in list(gold)[:3]}})
